@@ -388,13 +388,13 @@ def run(ck):
         return len(c[3]) >= 2 and len({it[0] for it in c[3]}) >= 2
 
     # 1. streams written by the implementation from clean items (the emit grammar of the theorems)
-    clean = [gen_items_case(rng, False, False) for _ in range(3000 if T else 350)]
-    clean += [gen_items_case(rng, False, True) for _ in range(300 if T else 25)]
+    clean = [gen_items_case(rng, False, False) for _ in range(8000 if T else 350)]
+    clean += [gen_items_case(rng, False, True) for _ in range(800 if T else 25)]
     ck.stream("written_streams", clean, "C14_items", "C14_items", "C14_items_ok", nontrivial=items_nontrivial,
               sig=lambda c, e, o: "written-stream", project=drop_last)
     # 2. items outside the grammar (dirty keys/values, odd status codes, truncated frame lengths, odd channel tables)
-    dirty = [gen_items_case(rng, True, False) for _ in range(3000 if T else 300)]
-    dirty += [gen_items_case(rng, True, True) for _ in range(200 if T else 15)]
+    dirty = [gen_items_case(rng, True, False) for _ in range(8000 if T else 300)]
+    dirty += [gen_items_case(rng, True, True) for _ in range(500 if T else 15)]
     ck.stream("dirty_streams", dirty, "C14_items", "C14_items", "C14_items_ok", nontrivial=items_nontrivial,
               sig=lambda c, e, o: "dirty-stream", compare=False)
     # 3. mutated streams, garbage, hand-written specials: through the dispatcher and through each reader
@@ -403,11 +403,11 @@ def run(ck):
         for kind in (0, 1, 2, 3):
             raws.append(raw(kind, [0, 1, 2, 3], rng, s))
         raws.append(raw(0, gen_cfg(rng), rng, s))
-    for _ in range(6000 if T else 600):
+    for _ in range(20000 if T else 600):
         c = gen_items_case(rng, False, False)
         s = b"".join(py_encode(c[0], it) for it in c[3]) + c[4]
         raws.append(raw(rng.choice([0, 0, 0, 0, 1, 2, 3]), c[0], rng, mutate(rng, s)))
-    for _ in range(4000 if T else 400):
+    for _ in range(12000 if T else 400):
         cfg = gen_cfg(rng, rng.choice([4, 4, 4, 0, 1, 6]))
         raws.append(raw(rng.choice([0, 0, 1, 2, 3]), cfg, rng, gen_garbage(rng)))
     ck.stream("raw_streams", raws, "C14_raw", "C14_raw", "C14_raw_ok", nontrivial=lambda c: len(c[4]) >= 8,
